@@ -47,7 +47,7 @@ def model_fs(ctl, ctlstate, text, files):
     for name, state, content in files:
         if not plain(name):
             continue
-        if state in ("ok", "blocked"):
+        if state in ("ok", "blocked", "occupied"):
             put(b"S", name, content)
         elif state == "dir":
             put(b"S", name, b"<dir>")
@@ -55,7 +55,9 @@ def model_fs(ctl, ctlstate, text, files):
             put(b"S", name, b"<dirfull>")
         if state == "blocked":
             put(b"D", name, b"<dirfull>")
-    if ctlstate in ("ok", "blocked"):
+        if state == "occupied":
+            put(b"D", name, content + b"Z" * 250)
+    if ctlstate in ("ok", "blocked", "occupied"):
         put(b"S", ctl, text)
     elif ctlstate == "dir":
         put(b"S", ctl, b"<dir>")
@@ -63,6 +65,8 @@ def model_fs(ctl, ctlstate, text, files):
         put(b"S", ctl, b"<dirfull>")
     if ctlstate == "blocked":
         put(b"D", ctl, b"<dirfull>")
+    if ctlstate == "occupied":
+        put(b"D", ctl, text + b"Z" * 250)
     put(b"S", b"sub", b"<dirfull>"); put(b"outside", b"canary", b"canary"); put(b"root", b"rootcanary", b"canary")
     return fs
 
@@ -92,8 +96,10 @@ def project_events(ev_text, impl):
     return out
 
 
-def project_pair(i, m):
-    """implementation: res filename [entries] [events] text ; model: res [entries] [events] -> comparable projections"""
+def project_pair(i, m, drop=()):
+    """implementation: res filename [entries] [events] text ; model: res [entries] [events] -> comparable projections.
+    drop: appearance events to leave out on both sides (a copy onto an existing file opens and truncates it: inotify
+    reports no creation, while the model logs one)"""
     it = i.split(" ", 2); mt = m.split(" ", 1)
     if len(it) < 3 or not it[2].startswith("["):
         return i[:200], m[:200]
@@ -102,8 +108,8 @@ def project_pair(i, m):
     ients, ievs = body[:k], body[k + 1:]
     k2 = mt[1].index("] [") + 1 if "] [" in mt[1] else (mt[1].index("] ") + 1)
     ments, mevs = mt[1][:k2], mt[1][k2 + 1:]
-    return (it[0] + " " + ients + " " + " ".join(project_events(ievs, True)),
-            mt[0] + " " + ments + " " + " ".join(project_events(mevs, False)))
+    return (it[0] + " " + ients + " " + " ".join(e for e in project_events(ievs, True) if e not in drop),
+            mt[0] + " " + ments + " " + " ".join(e for e in project_events(mevs, False) if e not in drop))
 
 
 def scenarios(chk):
@@ -117,11 +123,13 @@ def scenarios(chk):
                 out.append((kind, op, ctl, "ok", fl))
                 # a failure injected at each referenced file and at the control file itself
                 for pos in range(n):
-                    for st in ("missing", "dir", "dirfull", "blocked"):
+                    for st in ("missing", "dir", "dirfull", "blocked", "occupied"):
                         f2 = list(fl); f2[pos] = (f2[pos][0], st, f2[pos][2])
                         out.append((kind, op, ctl, "ok", f2))
-                for st in ("missing", "dir", "dirfull", "blocked"):
+                for st in ("missing", "dir", "dirfull", "blocked", "occupied"):
                     out.append((kind, op, ctl, st, fl))
+                if n:
+                    out.append((kind, op, ctl, "occupied", [(a, "occupied", c) for a, _, c in fl]))
             # listed names that are not plain file names
             for bad in BAD:
                 if kind == "changes" and b" " in bad:
@@ -153,8 +161,10 @@ def run(chk):
         mcases.append(("upload", [op.encode(), ctl, b"-" if ft is None else str(ft).encode(), len(files)] + [n for n, _, _ in files] + model_fs(ctl, ctlstate, text, files)))
     model = chk.run_model(mcases)
     pi, pm = [], []
-    for i, m in zip(impl, model):
-        a, b = project_pair(i, m)
+    for (kind, op, ctl, ctlstate, files), i, m in zip(scs, impl, model):
+        occ = [n for n, st, _ in files if st == "occupied"] + ([ctl] if ctlstate == "occupied" else [])
+        drop = {"+x" + b"D".hex() + "/x" + n.hex() for n in occ} if op == "copy" else ()
+        a, b = project_pair(i, m, drop)
         pi.append(a); pm.append(b)
     chk.compare("real-file-system-vs-model", mcases, pi, pm, nontrivial=lambda c, r: True, kernel=False)
     for k in range(0, len(mcases), max(1, len(mcases) // 40)):
@@ -189,7 +199,8 @@ def run(chk):
             if res == "ok":
                 if fn != dctl:
                     why = "after a successful %s the handle does not point at the new location" % op
-                for n, st, cnt in files + [(ctl, "ok", None)]:
+                ctext = bytes.fromhex(i.rsplit(" ", 1)[1][1:])
+                for n, st, cnt in files + [(ctl, ctlstate, ctext)]:
                     want = cnt if cnt is not None else None
                     if st in ("dir", "dirfull"):
                         want = b"<" + st.encode() + b">"      # a directory listed as a file is moved as it is
@@ -199,7 +210,9 @@ def run(chk):
                         why = "a successful copy changed or removed an original"
                 if appear:
                     first = evs.index(appear[0])
-                    for n in listed:
+                    for n, st, _ in files:
+                        if st == "occupied" and op == "copy":
+                            continue          # it was in the destination all along (opened and truncated, not created)
                         if "+" + hxn(b"D", n) not in evs[:first]:
                             why = "the control file became visible in the destination before the referenced file %s" % n.decode()
             else:
